@@ -1,19 +1,19 @@
 SPECIFICATION Spec
 CONSTANTS
-  MaxMsgs = 4
+  MaxMsgs = 3
   Classes <- ClassesAll
   NWriters = 1
   Conc = FALSE
   Excl = TRUE
   WinLock = TRUE
   Fault = "none"
-  ReadPolicy = "eager"
+  ReadPolicy = "any"
   StrictBackend = TRUE
-  DrainAfterDecode = TRUE
-  Modes <- ModesCt
+  DrainAfterDecode = FALSE
+  Modes <- ModesPmCt
   Levels <- LevelsOne
   Bits <- BitsOne
-
+VIEW StView
 INVARIANTS NoReaderRefused DictionariesEqual HeadDecodable ReadEqualsWrite InOrder NoInterleave NoDecodeFailure WindowIsSuffix NoWindowWithoutTakeover
-CONSTRAINT GenPrint
+
 CHECK_DEADLOCK FALSE
